@@ -1,5 +1,6 @@
 import TaskModel.Vars.Lemmas
 import TaskModel.Vars.CompileLemmas
+import TaskModel.Quote.Template
 /-!
 # C02 (loops and call variables) — completes `Props/C02.lean`
 
@@ -105,5 +106,39 @@ theorem C02_loop_one_per_element (lv : Name) (vars : List (Name × Str)) (items 
 /-- non-vacuity: a task variable named like the loop variable does not hide the elements -/
 example : loopRender 7 [(7, [115]), (8, [120])] [[97], [98]] [7, 8] =
     [[some [97], some [120]], [some [98], some [120]]] := by decide
+
+/-! ## "Variables passed in a call are the ones the callee sees" — the VALUE, byte for byte
+
+The theorems above are about the layers (which definition wins).  The value itself takes one
+more pass through the template engine: the callee's `getVariables` templates every call
+variable like any other definition.  A value that came out of an `sh:` command in the caller
+(the one place where text is not templated), or that is handed to `Call.Vars` through the API,
+is EVALUATED when it contains a template action, and loses the literal `<no value>` — the
+root of the two open C19 findings, recorded for C02 as `C02-call-values-templated-again`
+(domain `callvals`).  `Quote.Template`: the engine's behaviour on non-inert text is a parameter. -/
+
+open TaskModel.Quote in
+/-- what the callee holds for a call variable whose value is the text `v` -/
+def calleeSees (engine : Bytes → Option Bytes) (v : Bytes) : Option Bytes := tmplPass engine v
+
+open TaskModel.Quote in
+def C02_call_values_verbatim_full : Prop := ∀ (engine : Bytes → Option Bytes) (v : Bytes), calleeSees engine v = some v
+
+open TaskModel.Quote in
+/-- **false of the code as it is**: the value `{{.Y}}` with an engine that renders the action as `why` -/
+theorem C02_call_values_counterexample : ¬ C02_call_values_verbatim_full := by
+  intro h
+  have := h (fun _ => some [119, 104, 121]) [123, 123, 46, 89, 125, 125]
+  revert this
+  decide
+
+open TaskModel.Quote in
+/-- **partial**: a value without `{{` and without the literal `<no value>` is what the callee sees -/
+theorem C02_call_values_partial (engine : Bytes → Option Bytes) (v : Bytes) (h : templateInert v = true) :
+    calleeSees engine v = some v := by
+  simp [calleeSees, tmplPass, h]
+
+open TaskModel.Quote in
+example : templateInert [105, 116, 39, 115, 32, 34, 36, 72, 79, 77, 69, 34] = true := by decide    -- it's "$HOME"
 
 end Props.C02Vars
